@@ -1,8 +1,67 @@
-"""Counterexample search and native replay (DESIGN §2.5)."""
+"""Counterexample search and native replay (DESIGN §2.5).
+
+Verus gives no counterexample.  When one of its obligations fails, the executable mirror of that function's
+contract (hooks/*.rs, compiled into the real crate under cfg(ldk_verif)) is searched natively with
+boundary-biased random inputs (deterministic from VERIF_SEED); a hit is replayed and reported as the failing
+input.  No hit => the violation is still reported, marked no-failing-input-found.
+"""
 import json
+import os
+import subprocess
+
+from . import kani as K
+
+# (unit, function) -> [(module, contract, types)]
+SEARCH = {
+    ('u01', 'get_next_commitment_stats'): [('tx_builder', 'stats_conservation_norm', 'bool,bool,u64,u64,u64,bool,u64,bool,u64,bool,u8,u8,u32,bool,u64,u8')],
+    ('u01', 'checked_sub_from_funder'): [('tx_builder', 'checked_sub_from_funder', 'bool,u64,u64,u64')],
+    ('u01', 'has_output'): [('tx_builder', 'has_output', 'bool,u64,u64,u32,u16,u64,u8')],
+    ('u01', 'commit_tx_fee_sat'): [('chan_utils', 'commit_tx_fee_sat', 'u32,u32,u8')],
+    ('u01e', 'commit_tx_fee_sat'): [('chan_utils', 'commit_tx_fee_sat', 'u32,u32,u8')],
+    ('u16', 'compute_fees'): [('router', 'compute_fees', 'u64,u32,u32')],
+    ('u07', 'feerate_bump'): [('package', 'feerate_bump_norm', 'u64,u64,u64,u64,u8,u32')],
+    ('u07', 'compute_fee_from_spent_amounts'): [('package', 'feerate_bump_norm', 'u64,u64,u64,u64,u8,u32')],
+}
+WINDOW = ('tx_builder', 'send_window_norm', 'bool,u64,u64,u64,bool,u64,bool,u8,u32,u64,u64,u64,u64,u64,u16,u8')
+for f in ('get_available_balances', 'adjust_capacity_for_holder_reserved_fee', 'adjust_capacity_for_counterparty_reserved_fee',
+          'adjust_min_max_htlc_for_dust_exposure', 'adjust_boundaries_if_max_dust_htlc_produces_no_output',
+          'adjust_min_max_htlc_if_max_dust_htlc_produces_no_output', 'get_next_commitment_stats', 'has_output', 'is_dust', 'commit_tx_fee_sat',
+          'saturating_sub_from_funder', 'checked_sub_from_funder', 'total_anchors_sat', 'second_stage_tx_fees_sat', 'get_dust_exposure_stats',
+          'commit_plus_htlc_tx_fees_msat', 'get_dust_buffer_feerate'):
+    SEARCH.setdefault(('u01', f), []).append(WINDOW)
+
+N_CASES = int(os.environ.get('VERIF_CE_CASES', '400000'))
+
+
+def run_search(module, contract, types, seed, n=N_CASES):
+    binp, err = K.build_replay()
+    if not binp:
+        return {'built': False, 'error': err}
+    pr = subprocess.run([binp, '--search', module, contract, types, str(seed), str(n)], capture_output=True, text=True)
+    out = pr.stdout.strip()
+    res = {'built': True, 'cmd': ' '.join([binp, '--search', module, contract, types, str(seed), str(n)]), 'stdout': out}
+    if out.startswith('FOUND'):
+        parts = out.split()
+        res['found'] = [int(x) for x in parts[2:]]
+        res['verdict'] = parts[1]
+    return res
 
 
 def search(prop, unit, fail, seed):
+    fn = fail.get('function')
+    cands = SEARCH.get((unit, fn), [])
+    tried = []
+    for (module, contract, types) in cands:
+        r = run_search(module, contract, types, seed)
+        tried.append({'contract': module + '::' + contract, 'result': (r.get('stdout') or r.get('error') or '')[:200]})
+        if r.get('found') is not None:
+            binp = r['cmd'].split()[0]
+            replay_cmd = ' '.join([binp, module, contract] + [str(x) for x in r['found']])
+            pr = subprocess.run([binp, module, contract] + [str(x) for x in r['found']], capture_output=True, text=True)
+            return {'inputs': {'module': module, 'contract': contract, 'types': types.split(','), 'args': r['found'], 'found_by': 'native boundary-biased random search, seed %d' % seed},
+                    'replay': {'cmd': replay_cmd, 'stdout': pr.stdout.strip(), 'rc': pr.returncode}, 'cmd': replay_cmd, 'tried': tried}
+    if tried:
+        return {'inputs': None, 'replay': None, 'cmd': None, 'tried': tried}
     return None
 
 
@@ -10,4 +69,13 @@ def replay_file(path):
     doc = json.load(open(path))
     print(json.dumps({k: doc.get(k) for k in ('property', 'unit', 'function', 'obligation', 'message', 'inputs', 'replay_cmd')}, indent=1))
     print(doc.get('verifier_output') or '')
+    inp = doc.get('inputs')
+    if inp and inp.get('args') is not None:
+        nat = K.native_replay(inp['module'], inp['contract'], inp['args'])
+        print('native replay against the current /repo tree:', json.dumps(nat))
+        if nat.get('built') and 'Violated' in (nat.get('stdout') or ''):
+            print('VIOLATION property=%s replay=%s' % (doc.get('property'), path))
+            return 1
+        return 0
+    print('no failing input recorded for this obligation; re-run ./check %s to re-verify it' % doc.get('property'))
     return 0
